@@ -36,6 +36,12 @@ def case(draw):
     net = draw(gen_net.determined_network(noise=0, allow_cov=True))
     tol = draw(st.sampled_from([10, 30, 100, 1000, 1000, 7000]))
     net["params"]["tol-abs"] = tol
+    # steep terrain: the observed values are derived from the coordinates when the input is written (noise = 0), so the
+    # heights can be stretched before anything else is decided; slope and horizontal sight lengths then differ markedly
+    kz = draw(st.sampled_from([1, 1, 3, 8]))
+    if kz != 1 and net["dims"] != "2d":
+        for p in net["points"]:
+            p["H"] = round(200.0 + kz * (p["H"] - 200.0), 3)
     # eligible observations
     elig = []
     for ci, cl in enumerate(net["clusters"]):
@@ -119,6 +125,7 @@ def apply_blunders(c):
                     f = 0.5 * (1.0 + d3 / d0) if t == "z-angle" else 0.5 * (1.0 + d0 / d3)
                     mis = f * tol * b["sign"]
                     info.append("steep")
+                    info.append("steep." + t)
                 ob["e"] = mis * K_ANG / s
             else:
                 if nm.obs_truth(net, cl, ob, P) * 1e3 + mis < 1.0:
@@ -206,6 +213,51 @@ def model_misclosures(net):
                     out.append((ci, oi, [abs(a - b) * 1e3 for a, b in zip(v, comp)]))
                 else:
                     out.append((ci, oi, [abs(v - comp) * 1e3]))
+    return out
+
+
+def homogenised_angular(net):
+    """Model of the recorded defect (known finding abs-term-angular-scaled): in the removal phase gama tests angular
+    observations with the homogenised absolute term L^-1 b (C/m0^2 = L L') instead of b.
+    -> {(ci, oi): |homogenised term| * lever [mm]} for the angular observations"""
+    Pa = approx_map(net)
+    vals = nm.observed_values(net)
+    m0 = float(net["params"]["sigma-apr"])
+    out = {}
+    for ci, cl in enumerate(net["clusters"]):
+        if cl["k"] != "obs" or not any(ob["t"] in nm.ANGULAR for ob in cl["obs"]):
+            continue
+        dirs = [oi for oi, ob in enumerate(cl["obs"]) if ob["t"] == "direction"]
+        u = [wrap(vals[ci][oi] - nm.obs_truth(net, cl, cl["obs"][oi], Pa)) for oi in dirs]
+        shift = 0.0
+        if u:
+            rel = sorted(wrap(x - u[0]) for x in u)
+            n = len(rel)
+            a, b_ = rel[(n - 1) // 2], rel[n // 2]
+            m = b_ if (abs(b_ - a) > math.pi / 2 and n < 3) else (a + b_) / 2
+            shift = u[0] + m
+        b = []
+        for oi, ob in enumerate(cl["obs"]):
+            comp = nm.obs_truth(net, cl, ob, Pa)
+            if ob["t"] == "direction":
+                b.append(wrap(vals[ci][oi] - comp - shift) * nm.R2G * 1e4)
+            elif ob["t"] in nm.ANGULAR:
+                d = vals[ci][oi] - comp
+                b.append((wrap(d) if ob["t"] != "z-angle" else d) * nm.R2G * 1e4)
+            else:
+                b.append((vals[ci][oi] - comp) * 1e3)
+        if cl.get("cov"):
+            C = np.array(cl["cov"]["C"], float)
+        else:
+            C = np.diag([float(ob["sd"]) ** 2 for ob in cl["obs"]])
+        try:
+            L = np.linalg.cholesky(C / (m0 * m0))
+            bh = np.linalg.solve(L, np.array(b))
+        except np.linalg.LinAlgError:
+            continue
+        for oi, ob in enumerate(cl["obs"]):
+            if ob["t"] in nm.ANGULAR:
+                out[(ci, oi)] = abs(bh[oi]) * sight(net, cl, ob, Pa) / (10 * nm.R2G)
     return out
 
 
@@ -336,6 +388,20 @@ def build(c, force_expected=None):
         elif kind == "sdist_unused_z":
             # 2D network: two points carry a height that is neither fixed nor adjusted; a slope distance between them
             # cannot be used (its height difference is no parameter and no constant of the adjustment)
+            if dims == "3d":
+                # station with an adjusted / fixed height, target with horizontal coordinates only but a height value in the file
+                Pa = {p["id"]: p for p in dirty["points"]}[d["a"]]
+                name = "Tz%d" % gid
+                q = {"id": name, "E": Pa["E"] + 31.0, "N": Pa["N"] - 17.0, "H": Pa["H"] + 2.0, "xy": "adj", "z": None,
+                     "give_xy": True, "give_z": True}
+                for net_ in (dirty, clean):
+                    net_["points"].append(dict(q))
+                    net_["clusters"].append({"k": "coords", "obs": [{"id": name, "dims": "xy", "e": [0.0, 0.0]}],
+                                             "cov": {"band": 0, "C": [[16.0, 0.0], [0.0, 16.0]]}})
+                dirty["clusters"].append({"k": "obs", "from": d["a"], "from_dh": None, "orient": 0.0, "cov": None,
+                                          "obs": [{"t": "s-distance", "to": name, "sd": 6.0, "e": 0.0}]})
+                labels.append("defect.sdist_unused_z")
+                continue
             if dims != "2d" or d["a"] == d["b"]:
                 continue
             Pd = {p["id"]: p for p in dirty["points"]}
@@ -477,6 +543,26 @@ def oracle(c, stats):
         tol_s = net0["params"]["tol-abs"]
         # known finding (one root cause, two symptoms): the removal phase tests angular observations with the
         # homogenised absolute term b*m0/sigma instead of b
+        # The recorded defect is modelled exactly (homogenised_angular): only a discrepancy that this model predicts is
+        # reported under the known tags; any other disagreement on an angular observation is a violation of its own.
+        hom = homogenised_angular(apply_blunders(c)[0])
+        rev = {(v[0], v[1]): k for k, v in idents.items()}
+        ang_all = [(ci_, oi_) for (ci_, oi_) in hom if (ci_, oi_) in rev]
+        want_set = set(map(str, want))
+        pred_removed = set(str(rev[k]) for k in ang_all if hom[k] > float(tol_s))
+        pred_missing = sorted(str(rev[k]) for k in ang_all if str(rev[k]) in want_set and str(rev[k]) not in pred_removed)
+        pred_extra = sorted(str(rev[k]) for k in ang_all if str(rev[k]) not in want_set and str(rev[k]) in pred_removed)
+        got_missing = sorted(str(w) for w in missing if w[0] in ANG)
+        got_extra = sorted(str(w) for w in extra if w[0] in ANG)
+        if got_missing != pred_missing or got_extra != pred_extra:
+            if any(abs(hom[k] - float(tol_s)) <= 0.02 * float(tol_s) + 1e-6 for k in ang_all):
+                stats.label("discarded_near_threshold")
+                return []
+            fails.append("threshold.angular_unexplained: angular observations kept/excluded differently from both the stated rule and the "
+                         "recorded homogenised-term defect: wrongly kept %s (defect model %s), wrongly excluded %s (defect model %s), tol-abs=%s"
+                         % (got_missing[:3], pred_missing[:3], got_extra[:3], pred_extra[:3], tol_s))
+        else:
+            stats.label("known_angular_threshold.modelled")
         if [w for w in missing if w[0] in ANG]:
             fails.append("threshold.angular_not_excluded: positional misclosure above tol-abs=%s but not excluded: %s" % (tol_s, [w for w in missing if w[0] in ANG][:3]))
         if [w for w in extra if w[0] in ANG]:
@@ -603,9 +689,31 @@ def oracle(c, stats):
     same_path = x0["summary"]["iterations"] == x1["summary"]["iterations"]
     if same_path:
         fails += c10.compare("equiv", x0, x1, stats)
+    elif max(x0["summary"]["iterations"], x1["summary"]["iterations"]) >= 5:
+        stats.label("discarded_iteration_limit")        # one of the runs did not converge (as in C13)
     else:
         stats.label("iterations_differ")
-        fails += c13.compare_results("equiv", x0, x1, stats, tolc)
+        tol_ang = 5e-1
+        kept = [b for b in c["blunders"] if not any(ci == b["ci"] and oi == b["oi"] for ci, oi, _ in expected)]
+        if kept:
+            # a kept blunder leaves a large residual v: Gauss-Newton then converges only linearly (ratio ~ v/sight), and
+            # gama stops when the second-order term of the last correction is below 0.0005 mm, i.e. correction
+            # < sqrt(5e-7 m * sight); the next correction - the distance of two accepted stopping points - is bounded by
+            # ratio * that.  Error-free cases (quadratic convergence) keep the tight tolerance.
+            stats.label("iterations_differ.kept_blunder")
+            vmax = max(b["f"] for b in kept) * net0["params"]["tol-abs"] * 1e-3
+            ds = [sight(net0, cl0, ob, P) for cl0 in net0["clusters"] if cl0["k"] == "obs" for ob in cl0["obs"]]
+            ds = [d for d in ds if d and d > 0]
+            if ds:
+                slack = 2.0 * min(1.0, vmax / min(ds)) * math.sqrt(5e-7 * max(ds))
+                tolc = max(tolc, slack)
+                tol_ang = max(tol_ang, slack / min(ds) * nm.R2G * 1e4)
+        fl = c13.compare_results("equiv", x0, x1, stats, tolc, tol_ang)
+        # error-free observations: v'Pv is the squared second-order remainder of the linearisation (zenith angles and
+        # azimuths are not part of gama's convergence test); two noise-level values are not compared
+        if max(x0["summary"]["sum_of_squares"], x1["summary"]["sum_of_squares"]) < 1e-3:
+            fl = [f_ for f_ in fl if not f_.startswith("equiv.sum_of_squares")]
+        fails += fl
     return fails
 
 
